@@ -1,4 +1,3 @@
-from itertools import product
 from typing import (
     TYPE_CHECKING,
     Any,
@@ -115,7 +114,7 @@ class Isomorphism(Generic[ClassType1, ObjType1, ClassType2, ObjType2]):
             return bool(is_base_case + 1)
 
         # Update ancestors for recursion
-        self._ancestors.update(product(eq_path1, eq_path2))
+        self._ancestors.add((curr1, curr2))
 
         # Matches concluded from here on may rely on the current pair being matched
         n_matched = len(self._order_map)
@@ -170,7 +169,7 @@ class Isomorphism(Generic[ClassType1, ObjType1, ClassType2, ObjType2]):
                 # Since we did not conclude this match by recursion we can remove our
                 # current ids from the ancestor set since the next ones we check are
                 # not descendants of the current ids (or their equivalences).
-                self._ancestors.difference_update(product(eq_path1, eq_path2))
+                self._ancestors.discard((curr1, curr2))
                 return True
 
             # If we have indices to expand, that is done here
@@ -178,7 +177,7 @@ class Isomorphism(Generic[ClassType1, ObjType1, ClassType2, ObjType2]):
 
         # If stack has been exhausted we have failed to match the ids. We remove them
         # from the ancestors set, memorize the failure and remove any data gathered.
-        self._ancestors.difference_update(product(eq_path1, eq_path2))
+        self._ancestors.discard((curr1, curr2))
         self._failed.add((curr1, curr2))
         self._index_data.pop((curr1, curr2), None)
         # Forget the matches that were concluded while assuming the current pair
@@ -240,8 +239,10 @@ class Isomorphism(Generic[ClassType1, ObjType1, ClassType2, ObjType2]):
         if not self._constructor_match(rule1, rule2, curr1, curr2):
             return Isomorphism._INVALID
 
-        # Check for recursive match
-        if any((n1, n2) in self._ancestors for n1, n2 in product(eq_nodes1, eq_nodes2)):
+        # Check for recursive match. Everything the test records (matches, failures,
+        # pairs in progress) is keyed by the pair of classes the equivalence steps lead
+        # to, so that the answer for a pair does not depend on where it is met.
+        if (curr1, curr2) in self._ancestors:
             return Isomorphism._VALID
 
         return Isomorphism._UNKNOWN
